@@ -1,11 +1,21 @@
 use crate::engine::Check;
 use std::sync::Arc;
 
+pub mod c01;
+pub mod c02;
+pub mod c03;
+pub mod c06;
+pub mod c07;
 pub mod c10;
 pub mod c11;
 
 pub fn by_id(id: &str) -> Option<Arc<dyn Check>> {
     Some(match id {
+        "C01" => Arc::new(c01::C01),
+        "C02" => Arc::new(c02::C02),
+        "C03" => Arc::new(c03::C03),
+        "C06" => Arc::new(c06::C06),
+        "C07" => Arc::new(c07::C07),
         "C10" => Arc::new(c10::C10),
         "C11" => Arc::new(c11::C11),
         _ => return None,
